@@ -5,6 +5,7 @@ CONSTANTS
   Chain <- ChainP2
   Head0 <- HeadP2
   MaxCrash = 1
+  MaxTries = 3
   Known <- KnownNone
 INVARIANT C21Inv
 INVARIANT C22Inv
